@@ -40,7 +40,7 @@ fn promise_case<P: G>(cfg: Cfg, j: usize, tier: Tier, top: bool) -> Box<dyn Case
         for p in created {
             let mut wit = base.clone();
             wit.promises[j] = p;
-            let built = build_cached::<P>(&cfg, &wit).expect("valid");
+            let built = build_cached::<P>(&cfg, &wit).honest();
             let proof = match catch(|| lib_prove(&built, &CTX_A, &mut HRng::chacha(41))) {
                 Ok(Ok(pr)) => pr,
                 other => {
@@ -137,8 +137,8 @@ fn promise_case<P: G>(cfg: Cfg, j: usize, tier: Tier, top: bool) -> Box<dyn Case
                         cw.values[0] = 1;
                     }
                     cw.promises[0] = comp_promise;
-                    let comp = build_cached::<P>(&comp_cfg, &cw).expect("valid");
-                    let comp_proof = lib_prove(&comp, &CTX_A, &mut HRng::chacha(43)).expect("honest");
+                    let comp = build_cached::<P>(&comp_cfg, &cw).honest();
+                    let comp_proof = lib_prove(&comp, &CTX_A, &mut HRng::chacha(43)).honest();
                     // precondition (C01 / C03): the same two triples verify together when neither carries a promise-specific
                     // feature, i.e. the companion alone and the triple alone are accepted
                     let comp_ok = verify_observed_one(&comp.statement, &comp_proof, &CTX_A, VerifyAction::VerifyOnly).is_ok();
@@ -170,7 +170,7 @@ fn promise_case<P: G>(cfg: Cfg, j: usize, tier: Tier, top: bool) -> Box<dyn Case
                 if let Some(rp) = ref_proof_of(&proof) {
                     if !rp.l.is_empty() {
                         let cfg_f = cfg;
-                        let built_f = build_cached::<F>(&cfg_f, &wit).expect("valid");
+                        let built_f = build_cached::<F>(&cfg_f, &wit).honest();
                         for p2 in [p, Some(pv.saturating_add(1)), None] {
                             let mut ps = wit.promises.clone();
                             ps[j] = p2;
@@ -222,7 +222,7 @@ fn promise_case<P: G>(cfg: Cfg, j: usize, tier: Tier, top: bool) -> Box<dyn Case
                         // alone, and as the first / last member of a batch with an honest companion
                         let comp_cfg = Cfg::new(cfg.n, 1, 1, cfg.d);
                         let cw = Wit::default_for(&comp_cfg);
-                        let comp = build_cached::<P>(&comp_cfg, &cw).expect("valid");
+                        let comp = build_cached::<P>(&comp_cfg, &cw).honest();
                         let comp_proof = lib_prove(&comp, &CTX_A, &mut HRng::chacha(44));
                         let mut layouts: Vec<(String, Vec<tari_bulletproofs_plus::range_statement::RangeStatement<P>>, Vec<tari_bulletproofs_plus::range_proof::RangeProof<P>>)> =
                             vec![("alone".into(), vec![st.clone()], vec![P::proof_clone(&proof)])];
@@ -253,7 +253,7 @@ fn promise_case<P: G>(cfg: Cfg, j: usize, tier: Tier, top: bool) -> Box<dyn Case
         for (p, expect_ok) in [(vj, true), (vj.saturating_add(1), vj == u64::MAX)] {
             let mut wit = base.clone();
             wit.promises[j] = Some(p);
-            let built = build_cached::<P>(&cfg, &wit).expect("statement");
+            let built = build_cached::<P>(&cfg, &wit).honest();
             let r = catch(|| lib_prove(&built, &CTX_A, &mut HRng::chacha(42)));
             res.executions += 1;
             match r {
